@@ -245,6 +245,21 @@ def build_args(ex, contract, finfo):
     for nm in names:
         if nm not in contract.params:
             raise ContractOutOfDate(f"{contract.qualname}: parameter {nm} has no kind in the contract")
+        if contract.params[nm] == ("default",):
+            # the parameter is omitted by the caller: its value is the function's own default expression
+            pos = [x.arg for x in a.posonlyargs + a.args]
+            dnode = None
+            if nm in pos:
+                di = pos.index(nm) - (len(pos) - len(a.defaults))
+                dnode = a.defaults[di] if di >= 0 else None
+            else:
+                dnode = dict(zip([x.arg for x in a.kwonlyargs], a.kw_defaults)).get(nm)
+            if dnode is None:
+                raise ContractOutOfDate(f"{contract.qualname}: parameter {nm} has no default value any more")
+            if ex._defaults_module is None:
+                ex._defaults_module = finfo.module
+            env[nm] = ex.eval_const_default(dnode)
+            continue
         env[nm] = make_input(ex, nm, contract.params[nm])
     for nm in contract.params:
         if nm not in names and nm != "**":
